@@ -152,9 +152,11 @@ class Engine:
     # ------------------------------------------------------------------
     # feasibility
     def feasible(self, st: State, extra=None):
+        # quantified conjuncts are left out: a weaker path condition can only make the
+        # check answer "feasible" more often, which is the safe direction for pruning
         s = z3.Solver()
-        s.set("timeout", 3000)
-        s.add(*st.pc)
+        s.set("timeout", 1500)
+        s.add(*[p for p in st.pc if not has_quantifier(p)])
         if extra is not None:
             s.add(extra)
         t0 = time.time()
@@ -1651,6 +1653,28 @@ class Engine:
         if rg is not None:
             return V(INT, rg[0] + i)
         return V(seqv.ty.args[0], seqv.t[i])
+
+
+_hq_cache = {}
+
+
+def has_quantifier(e):
+    k = e.get_id()
+    r = _hq_cache.get(k)
+    if r is None:
+        r = False
+        todo, seen = [e], set()
+        while todo:
+            x = todo.pop()
+            if x.get_id() in seen:
+                continue
+            seen.add(x.get_id())
+            if z3.is_quantifier(x):
+                r = True
+                break
+            todo.extend(x.children())
+        _hq_cache[k] = r
+    return r
 
 
 def to_load(t):
